@@ -76,6 +76,10 @@ def oracle(r0):
     return viol, known
 
 
+def labels_of(r):
+    return r.get('labels', {})
+
+
 def run(ctx):
     ctx.prove('LPVerif.Props.C02', 'LPVerif/Props/C02.lean')
     build = ctx.build()
@@ -114,9 +118,13 @@ def run(ctx):
         viol, known = oracle(r0)
         if r0['reentrant']:
             n_reentrant += 1
+        aliased = {tuple(labels_of(r0).get(k.split(':')[0], [])) for k, v in r0.get('alias', {}).items() if v}
         for d in viol[:3]:
+            # F-C04a (unregistered byte-identical code on a registered line feeds that function) also adds that code's time
+            cls = 'F-C04a' if d.get('kind') in ('time-differs', 'not-conserved') and tuple(d.get('label') or []) in aliased \
+                and d.get('reported_ticks', 1) >= d.get('per_invocation_ticks', 0) else None
             ctx.fail('reported line time differs from the per-invocation accounting / is negative / is not conserved',
-                     {'finding_class': None, 'case': case, 'difference': d})
+                     {'finding_class': cls, 'case': case, 'difference': d})
         if known:
             n_known += 1
             ctx.fail('re-entrant invocation: caller line time excludes the re-entrant callee',
